@@ -676,6 +676,49 @@ func r11RootsLoops(c *an.Ctx) {
 		return
 	}
 	var probs []string
+	// variables of the outer root (loop variables of the outer loop and locals derived from them before
+	// the inner loop) and of the inner root (likewise for the first nested range)
+	outerVars, innerVars := map[types.Object]bool{}, map[types.Object]bool{}
+	addLoopVars := func(rs *ast.RangeStmt, set map[types.Object]bool) {
+		for _, e := range []ast.Expr{rs.Key, rs.Value} {
+			if o := an.ObjOf(info, e); o != nil {
+				set[o] = true
+			}
+		}
+	}
+	derive := func(list []ast.Stmt, set map[types.Object]bool) {
+		for _, st := range list {
+			as, ok := st.(*ast.AssignStmt)
+			if !ok || as.Tok != token.DEFINE {
+				continue
+			}
+			uses := false
+			for _, r := range as.Rhs {
+				ast.Inspect(r, func(k ast.Node) bool {
+					if id, ok := k.(*ast.Ident); ok && set[info.Uses[id]] {
+						uses = true
+					}
+					return true
+				})
+			}
+			if uses {
+				for _, l := range as.Lhs {
+					if o := an.ObjOf(info, l); o != nil {
+						set[o] = true
+					}
+				}
+			}
+		}
+	}
+	addLoopVars(cycleLoop, outerVars)
+	derive(cycleLoop.Body.List, outerVars)
+	for _, st := range cycleLoop.Body.List {
+		if inner, ok := st.(*ast.RangeStmt); ok {
+			addLoopVars(inner, innerVars)
+			derive(inner.Body.List, innerVars)
+			break
+		}
+	}
 	ast.Inspect(cycleLoop.Body, func(m ast.Node) bool {
 		br, ok := m.(*ast.BranchStmt)
 		if !ok {
@@ -684,19 +727,27 @@ func r11RootsLoops(c *an.Ctx) {
 		is, _ := parent[parent[br]].(*ast.IfStmt)
 		switch br.Tok {
 		case token.CONTINUE:
+			// a pair may be skipped on a condition about the PAIR - it mentions something of the outer
+			// root (its name or its dependency list) and something of the inner one: the pair of a root
+			// with itself, a root that does not depend on the other. A condition on one side only
+			// (len(deps) <= 2) removes a root from the check altogether.
 			okCond := false
-			if is != nil {
-				if cmp, ok := an.Unparen(is.Cond).(*ast.BinaryExpr); ok && cmp.Op == token.EQL {
-					isName := func(e ast.Expr) bool {
-						call, ok := an.Unparen(e).(*ast.CallExpr)
-						if !ok {
-							return false
+			if is != nil && outerVars != nil {
+				usesOuter, usesInner := false, false
+				ast.Inspect(is.Cond, func(k ast.Node) bool {
+					if id, ok := k.(*ast.Ident); ok {
+						if o := info.Uses[id]; o != nil {
+							if outerVars[o] {
+								usesOuter = true
+							}
+							if innerVars[o] {
+								usesInner = true
+							}
 						}
-						se, ok := call.Fun.(*ast.SelectorExpr)
-						return ok && se.Sel.Name == "EvalName"
 					}
-					okCond = isName(cmp.X) && isName(cmp.Y)
-				}
+					return true
+				})
+				okCond = usesOuter && usesInner
 			}
 			if !okCond {
 				cond := "unconditionally"
